@@ -28,6 +28,7 @@ class Model:
         # pacing state
         self.tainted_ids = set()
         self.tainted_names = set()
+        self.returned_ids = set()  # directories that left the tree and came back since the last drain (their watches still carry the old path)
         self.left = {}  # entry id -> path outside the tree (entries that have left the scope)
 
     def copy_tree(self):
@@ -65,6 +66,7 @@ class Model:
     def drain(self):
         self.tainted_ids.clear()
         self.tainted_names.clear()
+        self.returned_ids.clear()
 
     def inside_tainted(self, p):
         d = parent(p)
@@ -321,6 +323,10 @@ def valid(m: Model, op, paced=True, paced_out=True):
     def untouchable(p):  # subject strictly inside a tainted directory
         return paced and m.inside_tainted(p)
 
+    if paced and paced_out and k in ("chmod", "rmdir", "rmtree", "rename", "moveout") and m.eid(op[1]) in getattr(m, "returned_ids", ()):
+        # a directory that has just come back still answers under the name it left with until the stream has drained
+        # (same window as for operations on a directory that is still outside)
+        return False
     if k in ("mkfile", "mkspecial"):
         return is_under(op[1], ROOT) and free_name(op[1])
     if k == "write":
@@ -448,6 +454,7 @@ def taint_after(m_before: Model, m: Model, op):
                     m.taint(OUT + "/" + op[2] + q[len(s):])
     elif k == "moveback":
         if m.kind(op[2]) == "d":
+            m.returned_ids.add(m.eid(op[2]))
             m.taint(op[2])
             m.tainted_names.add(op[1])
             for q in m.subtree(op[2]):
@@ -498,7 +505,7 @@ def gen_ops(rng: random.Random, m: Model, n, names=("a", "b", "c"), max_depth=3,
         if k in ("mkfile", "mkdir"):
             op = [k, p]
         elif k == "mkspecial":
-            op = [k, p, rng.choice(["fifo", "symlink"])]
+            op = [k, p, rng.choice(["fifo", "symlink", "dirlink"])]
         elif k in ("write", "unlink"):
             fs = m.files_in(ROOT) + ([q for q in sorted(m.t) if is_under(q, ROOT) and m.t[q][0] == "s"] if k == "unlink" else [])
             if fs:
